@@ -21,7 +21,6 @@ META = {
                  "trace validation of the detector observations against the specification",
     "design_ref": "DESIGN.md section 5, C10",
     "crates": ["c10"],
-    "disabled": True,
 }
 
 
@@ -30,7 +29,10 @@ def sig(b):
     cfg = r.get("cfg") or {}
     rec = b.get("rec") or {}
     why = str(b.get("why", "")).strip('"')
-    s = {"ev": rec.get("ev"), "why": why, "ver": cfg.get("ver"), "crc": cfg.get("crc"), "attrs": cfg.get("attrs"),
+    regs = [rec.get("region", ""), rec.get("region_end", "")]
+    hit = "multi" if any(x.startswith("multi_") for x in regs) else \
+          "single" if any(x in ("single_raw", "single_comp", "listfile") for x in regs) else regs[0]
+    s = {"ev": rec.get("ev"), "why": why, "hit": hit, "ver": cfg.get("ver"), "crc": cfg.get("crc"), "attrs": cfg.get("attrs"),
          "enc": cfg.get("enc"), "comp": cfg.get("comp"), "signed": cfg.get("signed"),
          "region": rec.get("region", rec.get("place", "")), "region_end": rec.get("region_end", "")}
     return s
